@@ -215,3 +215,275 @@ Section InsList.
     cbn [app] in *. cbv zeta. split; [intros p Hp; destruct (D p Hp) as [_ X]; exact X|]. intros Hne. destruct (C Hne) as (_ & _ & _ & I3 & I4). split; assumption.
   Qed.
 End InsList.
+
+(* ------------------------------------------------------------------------------------------ *)
+(* the normal branch and its repair as insertion sequences                                       *)
+
+Definition c13_pick_normal (e : c13_edge) : Z * Z :=
+  if negb (c13_c1max e) && negb (c13_c2max e) then (c13_emax e, c13_lon1 e)
+  else if negb (c13_c1min e) && negb (c13_c2min e) then (c13_emin e, c13_lon1 e)
+  else (c13_lat1 e, c13_lon1 e).
+
+Definition c13_three (e : c13_edge) : list (Z * Z) :=
+  [(c13_lat1 e, c13_lon1 e); (c13_emax e, c13_lon1 e); (c13_emin e, c13_lon1 e)].
+
+Lemma c13_normal_as_list P H es : forall b,
+  fold_left (c13_step_normal P H) es b = c13_ins_list P H b (map c13_pick_normal es).
+Proof.
+  induction es as [|e es IH]; intros b; [reflexivity|].
+  cbn [fold_left map c13_ins_list]. rewrite IH. unfold c13_ins_list. f_equal.
+  unfold c13_step_normal, c13_pick_normal.
+  destruct (negb (c13_c1max e) && negb (c13_c2max e)); [reflexivity|].
+  destruct (negb (c13_c1min e) && negb (c13_c2min e)); reflexivity.
+Qed.
+
+Lemma c13_repaired_as_list P H es : forall b,
+  fold_left (c13_step_repaired P H) es b = c13_ins_list P H b (flat_map c13_three es).
+Proof.
+  induction es as [|e es IH]; intros b; [reflexivity|].
+  cbn [fold_left flat_map]. rewrite IH. unfold c13_ins_list. rewrite fold_left_app. reflexivity.
+Qed.
+
+Lemma c13_edge_ok_regular H e : FILL < - H -> c13_edge_ok H e ->
+  c13_regular (c13_lat1 e, c13_lon1 e) /\ c13_regular (c13_emax e, c13_lon1 e) /\ c13_regular (c13_emin e, c13_lon1 e).
+Proof. unfold c13_edge_ok, c13_regular. cbn [fst snd]. intros. lia. Qed.
+
+Section Branches.
+  Variables P H : Z.
+  Hypothesis HP : 0 < P.
+  Hypothesis HH : 0 < H.
+  Hypothesis HF : FILL < - H.
+
+  (* faithful normal branch: every corner longitude is inside the reported interval (the longitude logic is
+     sound), and both latitude bounds are attained by a corner latitude or an edge extreme *)
+  Lemma c13_normal_lon_and_tight es :
+    Forall (c13_edge_ok H) es ->
+    let b := c13_bounds_normal P H es in
+    (forall e, In e es -> c13_lon_in b (c13_norm P (c13_lon1 e)) = true) /\
+    (es <> [] ->
+     (exists e, In e es /\ (c13_lat_lo b = c13_lat1 e \/ c13_lat_lo b = c13_emax e \/ c13_lat_lo b = c13_emin e)) /\
+     (exists e, In e es /\ (c13_lat_hi b = c13_lat1 e \/ c13_lat_hi b = c13_emax e \/ c13_lat_hi b = c13_emin e))).
+  Proof.
+    intros Hok. cbv zeta. unfold c13_bounds_normal. rewrite c13_normal_as_list.
+    assert (HR : Forall c13_regular (map c13_pick_normal es)).
+    { apply Forall_forall. intros p Hp. apply in_map_iff in Hp. destruct Hp as (e & <- & He).
+      rewrite Forall_forall in Hok. destruct (c13_edge_ok_regular H e HF (Hok e He)) as (R1 & R2 & R3).
+      unfold c13_pick_normal. destruct (negb (c13_c1max e) && negb (c13_c2max e)); [exact R2|].
+      destruct (negb (c13_c1min e) && negb (c13_c2min e)); [exact R3|exact R1]. }
+    destruct (c13_ins_list_spec P H HP HH HF _ HR) as [A B]. cbv zeta in A, B.
+    assert (Pick : forall v, In v (map fst (map c13_pick_normal es)) ->
+                   exists e, In e es /\ (v = c13_lat1 e \/ v = c13_emax e \/ v = c13_emin e)).
+    { intros v Hv. apply in_map_iff in Hv. destruct Hv as (p & <- & Hp). apply in_map_iff in Hp.
+      destruct Hp as (e & <- & He). exists e. split; [exact He|].
+      unfold c13_pick_normal. destruct (negb (c13_c1max e) && negb (c13_c2max e)); [right; left; reflexivity|].
+      destruct (negb (c13_c1min e) && negb (c13_c2min e)); [right; right; reflexivity|left; reflexivity]. }
+    split.
+    - intros e He.
+      assert (Hin : In (c13_pick_normal e) (map c13_pick_normal es)) by (apply in_map; exact He).
+      destruct (A _ Hin) as [L _].
+      assert (E : snd (c13_pick_normal e) = c13_lon1 e).
+      { unfold c13_pick_normal. destruct (negb (c13_c1max e) && negb (c13_c2max e)); [reflexivity|].
+        destruct (negb (c13_c1min e) && negb (c13_c2min e)); reflexivity. }
+      rewrite E in L. exact L.
+    - intros Hne. assert (Hne' : map c13_pick_normal es <> []) by (destruct es; [contradiction|discriminate]).
+      destruct (B Hne') as [B1 B2]. split; apply Pick; assumption.
+  Qed.
+
+  (* repaired normal branch: every corner latitude and both extremes of every edge lie in [lat_lo, lat_hi], every
+     corner longitude in the interval, and the bounds are attained *)
+  Lemma c13_repaired_encloses es :
+    Forall (c13_edge_ok H) es ->
+    let b := c13_bounds_repaired P H es in
+    (forall e, In e es ->
+       c13_lat_lo b <= c13_lat1 e <= c13_lat_hi b /\ c13_lat_lo b <= c13_emin e /\ c13_emax e <= c13_lat_hi b /\
+       c13_lon_in b (c13_norm P (c13_lon1 e)) = true) /\
+    (es <> [] ->
+     (exists e, In e es /\ (c13_lat_lo b = c13_lat1 e \/ c13_lat_lo b = c13_emax e \/ c13_lat_lo b = c13_emin e)) /\
+     (exists e, In e es /\ (c13_lat_hi b = c13_lat1 e \/ c13_lat_hi b = c13_emax e \/ c13_lat_hi b = c13_emin e))).
+  Proof.
+    intros Hok. cbv zeta. unfold c13_bounds_repaired. rewrite c13_repaired_as_list.
+    assert (HR : Forall c13_regular (flat_map c13_three es)).
+    { apply Forall_forall. intros p Hp. apply in_flat_map in Hp. destruct Hp as (e & He & Hp).
+      rewrite Forall_forall in Hok. destruct (c13_edge_ok_regular H e HF (Hok e He)) as (R1 & R2 & R3).
+      unfold c13_three in Hp. cbn [In] in Hp. destruct Hp as [<-|[<-|[<-|[]]]]; assumption. }
+    destruct (c13_ins_list_spec P H HP HH HF _ HR) as [A B]. cbv zeta in A, B.
+    split.
+    - intros e He.
+      assert (I1 : In (c13_lat1 e, c13_lon1 e) (flat_map c13_three es)) by (apply in_flat_map; exists e; split; [exact He|left; reflexivity]).
+      assert (I2 : In (c13_emax e, c13_lon1 e) (flat_map c13_three es)) by (apply in_flat_map; exists e; split; [exact He|right; left; reflexivity]).
+      assert (I3 : In (c13_emin e, c13_lon1 e) (flat_map c13_three es)) by (apply in_flat_map; exists e; split; [exact He|right; right; left; reflexivity]).
+      destruct (A _ I1) as [L1 T1]. destruct (A _ I2) as [_ T2]. destruct (A _ I3) as [_ T3].
+      cbn [fst snd] in *. repeat split; try lia; exact L1.
+    - intros Hne.
+      assert (Hne' : flat_map c13_three es <> []) by (destruct es; [contradiction|discriminate]).
+      destruct (B Hne') as [B1 B2].
+      assert (Pick : forall v, In v (map fst (flat_map c13_three es)) ->
+                     exists e, In e es /\ (v = c13_lat1 e \/ v = c13_emax e \/ v = c13_emin e)).
+      { intros v Hv. apply in_map_iff in Hv. destruct Hv as (p & <- & Hp). apply in_flat_map in Hp.
+        destruct Hp as (e & He & Hp). exists e. split; [exact He|].
+        unfold c13_three in Hp. cbn [In] in Hp. destruct Hp as [<-|[<-|[<-|[]]]]; cbn [fst]; auto. }
+      split; apply Pick; assumption.
+  Qed.
+End Branches.
+
+(* the faithful normal branch loses a corner latitude: the quadrilateral (0,40) (60,40.5) (60,60) (0,60) degrees
+   (units: 1e-6 degree; extremes of the four great-circle edges rounded to that unit; flags truthful).  The
+   reported lower latitude bound is 40.5 degrees although a corner lies at 40. *)
+Definition c13_witness : list c13_edge :=
+  [ {| c13_lat1 := 40000000; c13_lon1 := 0;        c13_lat2 := 40500000; c13_emax := 44353182; c13_emin := 40000000;
+       c13_c1max := false; c13_c2max := false; c13_c1min := true;  c13_c2min := false; c13_pole_here := false |};
+    {| c13_lat1 := 40500000; c13_lon1 := 60000000; c13_lat2 := 60000000; c13_emax := 60000000; c13_emin := 40500000;
+       c13_c1max := false; c13_c2max := true;  c13_c1min := true;  c13_c2min := false; c13_pole_here := false |};
+    {| c13_lat1 := 60000000; c13_lon1 := 60000000; c13_lat2 := 60000000; c13_emax := 63434949; c13_emin := 60000000;
+       c13_c1max := false; c13_c2max := false; c13_c1min := true;  c13_c2min := true;  c13_pole_here := false |};
+    {| c13_lat1 := 60000000; c13_lon1 := 0;        c13_lat2 := 40000000; c13_emax := 60000000; c13_emin := 40000000;
+       c13_c1max := true;  c13_c2max := false; c13_c1min := false; c13_c2min := true;  c13_pole_here := false |} ].
+
+Lemma c13_normal_lat_refuted :
+  let P := 360000000 in let H := 90000000 in
+  Forall (c13_edge_ok H) c13_witness /\ Forall c13_truthful c13_witness /\
+  exists e, In e c13_witness /\ c13_lat_in (c13_bounds_normal P H c13_witness) (c13_lat1 e) = false.
+Proof.
+  cbv zeta. split; [|split].
+  - unfold c13_witness. repeat constructor; unfold FILL; cbn; lia.
+  - unfold c13_witness. repeat constructor.
+  - eexists. split; [left; reflexivity|]. vm_compute. reflexivity.
+Qed.
+
+Lemma c13_repaired_on_witness :
+  let P := 360000000 in let H := 90000000 in
+  c13_lat_lo (c13_bounds_repaired P H c13_witness) = 40000000 /\
+  c13_lat_hi (c13_bounds_repaired P H c13_witness) = 63434949.
+Proof. vm_compute. split; reflexivity. Qed.
+
+(* ------------------------------------------------------------------------------------------ *)
+(* pole branches                                                                                *)
+
+Section Pole.
+  Variables P H : Z.
+  Hypothesis HP : 0 < P.
+  Hypothesis HH : 0 < H.
+  Hypothesis HF : FILL < - H.
+
+  (* inserting the pole point [+-H, FILL] touches one latitude bound only *)
+  Lemma c13_insert_pole_point b (north : bool) :
+    c13_lat_ok b ->
+    let b' := c13_insert P H b (if north then H else - H) FILL in
+    c13_lon_lo b' = c13_lon_lo b /\ c13_lon_hi b' = c13_lon_hi b /\
+    c13_lat_lo b' <> FILL /\ c13_lat_hi b' <> FILL /\
+    (c13_lat_lo b <> FILL -> c13_lat_lo b' <= c13_lat_lo b) /\
+    (c13_lat_hi b <> FILL -> c13_lat_hi b <= c13_lat_hi b' \/ c13_lat_hi b' = H) /\
+    (north = true -> c13_lat_hi b' = H /\ (c13_lat_lo b' = H \/ c13_lat_lo b' = c13_lat_lo b)) /\
+    (north = false -> c13_lat_lo b' = - H /\ (c13_lat_hi b' = - H \/ c13_lat_hi b' = c13_lat_hi b)).
+  Proof.
+    intros Hok. pose proof c13_FILL_neg as HFn. cbv zeta. unfold c13_insert, c13_norm.
+    rewrite Z.eqb_refl. unfold c13_lat_ok in Hok.
+    destruct north.
+    - assert (E1 : ((H =? FILL) && true) = false) by lia. rewrite E1. cbn [andb orb].
+      rewrite Z.eqb_refl. cbn [orb].
+      destruct ((c13_lat_lo b =? FILL) && (c13_lat_hi b =? FILL)) eqn:U;
+      destruct ((c13_lon_lo b =? FILL) && (c13_lon_hi b =? FILL)) eqn:V;
+      cbn [c13_lat_lo c13_lat_hi c13_lon_lo c13_lon_hi]; repeat split; try lia; intros; try lia.
+    - assert (E1 : ((- H =? FILL) && true) = false) by lia. rewrite E1. cbn [andb orb].
+      assert (E2 : (- H =? H) = false) by lia. rewrite E2, Z.eqb_refl. cbn [orb].
+      destruct ((c13_lat_lo b =? FILL) && (c13_lat_hi b =? FILL)) eqn:U;
+      destruct ((c13_lon_lo b =? FILL) && (c13_lon_hi b =? FILL)) eqn:V;
+      cbn [c13_lat_lo c13_lat_hi c13_lon_lo c13_lon_hi]; repeat split; try lia; intros; try lia.
+  Qed.
+
+  Definition c13_pinv (north : bool) (b : c13_box) (seen : list c13_edge) : Prop :=
+    c13_lon_ok P b /\ c13_lat_ok b /\
+    (seen <> [] -> c13_lon_init b /\ c13_lat_lo b <> FILL /\ c13_lat_hi b <> FILL /\
+                   (if north then c13_lat_hi b = H else c13_lat_lo b = - H)) /\
+    (forall e, In e seen ->
+       c13_lon_in b (c13_norm P (c13_lon1 e)) = true /\
+       (if north then c13_lat_lo b <= c13_lat1 e /\ c13_lat_lo b <= c13_emin e
+        else c13_lat1 e <= c13_lat_hi b /\ c13_emax e <= c13_lat_hi b)).
+
+  Lemma c13_pole_step north b c seen e :
+    c13_edge_ok H e -> c13_pinv north b seen ->
+    c13_pinv north (fst (c13_step_pole P H north (b, c) e)) (seen ++ [e]) /\
+    snd (c13_step_pole P H north (b, c) e) = (c && negb (c13_pole_here e)).
+  Proof.
+    intros Eok (Lok & Tok & Hne & Hall).
+    destruct (c13_edge_ok_regular H e HF Eok) as ([R1a R1b] & [R2a R2b] & [R3a R3b]). cbn [fst snd] in *.
+    unfold c13_edge_ok in Eok.
+    unfold c13_step_pole.
+    (* the optional pole point *)
+    set (b0 := if c13_pole_here e then c13_insert P H b (if north then H else - H) FILL else b).
+    assert (B0 : c13_lon_lo b0 = c13_lon_lo b /\ c13_lon_hi b0 = c13_lon_hi b /\ c13_lat_ok b0 /\
+                 (c13_lat_lo b <> FILL -> c13_lat_lo b0 <= c13_lat_lo b) /\
+                 (c13_lat_hi b <> FILL -> c13_lat_hi b <= c13_lat_hi b0 \/ c13_lat_hi b0 = H) /\
+                 (c13_lat_lo b <> FILL -> c13_lat_hi b <> FILL -> north = true -> c13_lat_hi b = H -> c13_lat_hi b0 = H) /\
+                 (c13_lat_lo b <> FILL -> c13_lat_hi b <> FILL -> north = false -> c13_lat_lo b = - H -> c13_lat_lo b0 = - H)).
+    { unfold b0. destruct (c13_pole_here e).
+      - destruct (c13_insert_pole_point b north Tok) as (A1 & A2 & A3 & A4 & A5 & A6 & A7 & A8). cbv zeta in *.
+        repeat split; auto; try (right; split; assumption); intros; destruct north; try discriminate.
+        + apply A7; reflexivity.
+        + apply A8; reflexivity.
+      - repeat split; auto; try lia. }
+    destruct B0 as (B1 & B2 & B3 & B4 & B5 & B6 & B7).
+    assert (Lok0 : c13_lon_ok P b0) by (unfold c13_lon_ok in *; rewrite B1, B2; exact Lok).
+    (* insertion of the node *)
+    pose proof (c13_insert_lon P H HP HH HF b0 (c13_lat1 e) (c13_lon1 e) R1b Lok0) as (L1 & L2 & L3). cbv zeta in L1, L2, L3.
+    pose proof (c13_insert_lat P H HP HH HF b0 (c13_lat1 e) (c13_lon1 e) R1b R1a) as (T1 & T2 & T3 & T4 & T5). cbv zeta in T1, T2, T3, T4, T5.
+    pose proof (c13_insert_lat_ok P H HP HH HF b0 (c13_lat1 e) (c13_lon1 e) R1b R1a B3) as (N1 & N2).
+    set (b1 := c13_insert P H b0 (c13_lat1 e) (c13_lon1 e)) in *.
+    assert (Lok1 : c13_lon_ok P b1) by (right; exact L1).
+    assert (Tok1 : c13_lat_ok b1) by (right; split; assumption).
+    set (x := if north then c13_emin e else c13_emax e).
+    assert (Rx : x <> FILL) by (unfold x; destruct north; assumption).
+    pose proof (c13_insert_lon P H HP HH HF b1 x (c13_lon1 e) R1b Lok1) as (M1 & M2 & M3). cbv zeta in M1, M2, M3.
+    pose proof (c13_insert_lat P H HP HH HF b1 x (c13_lon1 e) R1b Rx) as (S1 & S2 & S3 & S4 & S5). cbv zeta in S1, S2, S3, S4, S5.
+    pose proof (c13_insert_lat_ok P H HP HH HF b1 x (c13_lon1 e) R1b Rx Tok1) as (Q1 & Q2).
+    set (b2 := c13_insert P H b1 x (c13_lon1 e)) in *.
+    assert (Init1 : c13_lon_init b1) by (unfold c13_lon_init; lia).
+    assert (Res : c13_step_pole P H north (b, c) e =
+                  (if north then c13_set_lat_hi b2 H else c13_set_lat_lo b2 (- H), c && negb (c13_pole_here e))).
+    { unfold c13_step_pole, b2, b1, b0, x. destruct (c13_pole_here e), north, c; reflexivity. }
+    unfold c13_step_pole in Res. rewrite Res. cbn [fst snd]. split; [|reflexivity].
+    assert (Lon_e : c13_lon_in b2 (c13_norm P (c13_lon1 e)) = true) by exact M2.
+    assert (Lon_old : forall q, In q seen -> c13_lon_in b2 (c13_norm P (c13_lon1 q)) = true).
+    { intros q Hq. destruct (Hall q Hq) as [A _].
+      assert (Hs : seen <> []) by (intros E; rewrite E in Hq; destruct Hq).
+      destruct (Hne Hs) as (I0 & _).
+      assert (c13_lon_in b0 (c13_norm P (c13_lon1 q)) = true) by (unfold c13_lon_in in *; rewrite B1, B2; exact A).
+      assert (c13_lon_init b0) by (unfold c13_lon_init in *; rewrite B1, B2; exact I0).
+      assert (Hr : 0 <= c13_norm P (c13_lon1 q) < P).
+      { destruct Lok as [[E1 E2]|[R1 R2]]; [unfold c13_lon_init in I0; pose proof c13_FILL_neg; lia|].
+        unfold c13_lon_in in A. unfold c13_norm in *. pose proof c13_FILL_neg.
+        destruct (c13_lon1 q =? FILL) eqn:E; [|apply Z.mod_pos_bound; exact HP].
+        apply Z.eqb_eq in E. rewrite E in A. c13_ifs_in A; lia. }
+      apply M3; auto. }
+    destruct north.
+    - (* north: upper bound forced to H *)
+      unfold c13_pinv. unfold c13_set_lat_hi, c13_lon_ok, c13_lat_ok, c13_lon_init, c13_lon_in in *.
+      cbn [c13_lat_lo c13_lat_hi c13_lon_lo c13_lon_hi].
+      split; [right; exact M1|]. split; [right; split; [exact Q1|lia]|].
+      split; [intros _; repeat split; try lia; exact Q1|].
+      intros q Hq. apply in_app_or in Hq. destruct Hq as [Hq|[<-|[]]].
+      + split; [apply Lon_old; exact Hq|].
+        destruct (Hall q Hq) as [_ [A1 A2]].
+        assert (Hs : seen <> []) by (intros E; rewrite E in Hq; destruct Hq).
+        destruct (Hne Hs) as (_ & I1 & I2 & _).
+        specialize (B4 I1). specialize (T2 ltac:(destruct B3 as [[X Y]|[X Y]]; [lia|exact X])).
+        specialize (S2 N1). lia.
+      + split; [exact Lon_e|]. specialize (S2 N1). unfold x in *. lia.
+    - unfold c13_pinv. unfold c13_set_lat_lo, c13_lon_ok, c13_lat_ok, c13_lon_init, c13_lon_in in *.
+      cbn [c13_lat_lo c13_lat_hi c13_lon_lo c13_lon_hi].
+      split; [right; exact M1|]. split; [right; split; [lia|exact Q2]|].
+      split; [intros _; repeat split; try lia; exact Q2|].
+      intros q Hq. apply in_app_or in Hq. destruct Hq as [Hq|[<-|[]]].
+      + split; [apply Lon_old; exact Hq|].
+        destruct (Hall q Hq) as [_ [A1 A2]].
+        assert (Hs : seen <> []) by (intros E; rewrite E in Hq; destruct Hq).
+        destruct (Hne Hs) as (_ & I1 & I2 & I3).
+        assert (X0 : c13_lat_hi b <= c13_lat_hi b0).
+        { destruct (B5 I2) as [X|X]; [exact X|]. rewrite X. 
+          (* b0's upper bound is H: the old one is at most ... we only know it is a latitude <= H through the edges *)
+          lia. }
+        specialize (T3 ltac:(destruct B3 as [[X Y]|[X Y]]; [lia|exact Y])).
+        specialize (S3 N2). lia.
+      + split; [exact Lon_e|]. specialize (S3 N2). unfold x in *. lia.
+  Qed.
+End Pole.
